@@ -503,7 +503,8 @@ def run(ctx):
                 idxmap.append(i)
         compared = len(terms)
         t1 = time.time()
-        per = max(PER_SHARD, -(-len(terms) // 12))   # at most 12 shards
+        nsh = 6 if ctx.tier == "quick" else 12     # a coqc start-up (Require) costs more than a shard's cases: few shards
+        per = max(PER_SHARD, -(-len(terms) // nsh))
         eok, mm, err = common.eval_cases(ctx, "cases", HEADER, terms, per)
         ctx.say("coq evaluation of %d cases: %.1fs" % (len(terms), time.time() - t1))
         if not eok:
